@@ -270,5 +270,8 @@ FIXED = [
     ("list-called-as-function", 'from nada_dsl import *\n\ndef nada_main():\n    p = Party(name="P")\n    a = Integer(3)\n    s = SecretInteger(Input(name="s", party=p))\n    l: list[Integer] = [a]\n    y = l()\n    return [Output(s, "o", p)]\n'),
     ("sum-of-public-list", 'from nada_dsl import *\n\ndef nada_main():\n    p = Party(name="P")\n    u = PublicInteger(Input(name="u", party=p))\n    s = SecretInteger(Input(name="s", party=p))\n    l: list[PublicInteger] = []\n    for i in range(2):\n        l.append(u)\n    t = sum(l)\n    c = (t < u).if_else(u, u)\n    return [Output(s, "o", p)]\n'),
     ("sum-of-literal-list", 'from nada_dsl import *\n\ndef nada_main():\n    p = Party(name="P")\n    s = SecretInteger(Input(name="s", party=p))\n    l = [Integer(1) for j in range(2)]\n    t = sum(l)\n    return [Output(s, "o", p)]\n'),
+    # comprehensions have their own scope (third seeding round)
+    ("comprehension-variable-used-afterwards", 'from nada_dsl import *\n\ndef nada_main():\n    p = Party(name="P")\n    xs = [SecretInteger(Input(name="x" + str(i), party=p)) for i in range(3)]\n    last = str(i)\n    return [Output(sum(xs), "total_" + last, p)]\n'),
+    ("comprehension-variable-shadows-a-name", 'from nada_dsl import *\n\ndef nada_main():\n    p = Party(name="P")\n    v = "a"\n    xs = [SecretInteger(Input(name="x" + str(v), party=p)) for v in range(2)]\n    w = v\n    z = w + "b"\n    return [Output(sum(xs), "total", p)]\n'),
     ("typed-constructor-of-int", 'from nada_dsl import *\n\ndef nada_main():\n    p = Party(name="P")\n    s = SecretInteger(Input(name="s", party=p))\n    n = 3\n    a = PublicInteger(10)\n    b = SecretInteger(n + 1)\n    return [Output(s, "o", p)]\n'),
 ]
